@@ -9,6 +9,7 @@ lemmas live in Ufw/Lemmas/Regp*.lean and Ufw/Lemmas/CrcAlgebra.lean.
 import Ufw.Lemmas.RegpVerdict
 import Ufw.Lemmas.RegpRecv
 import Ufw.Lemmas.RegpSpec
+import Ufw.Lemmas.RegpBurst
 
 namespace Ufw.Props.C07
 open Ufw Ufw.Model.Regp Ufw.Lemmas.Regp
@@ -180,5 +181,58 @@ theorem damaged_frame_reception (p : Inst) (raw : List Octet) (rest : List SrcEv
         · by_cases h2 : e = .eproto
           · subst h2; simpa using hreply
           · simp [h1, h2] at hv
+
+/-! ### what the checksums detect
+
+Error patterns are octet strings that are xor-ed onto the frame; `Burst16 e` says that the
+non-zero bits of `e` lie within sixteen consecutive bit positions in transmission order (octet by
+octet, least significant bit first - the order CRC-16/ARC is defined over). -/
+
+open Ufw.Lemmas.CrcAlgebra (xorL Burst16) in
+/-- CRC-16/ARC changes under every burst of up to sixteen bits, for every message of every length -/
+theorem crc_burst16 (m e : List Octet) (hlen : m.length = e.length) (h : Burst16 e) :
+    crc16 (xorL m e) ≠ crc16 m := crc16_ne_of_burst m e hlen h
+
+open Ufw.Lemmas.CrcAlgebra (xorL Burst16) in
+/-- a burst inside sequence number, address or block size of an accepted frame with header
+    checksum (every frame on a serial link): never accepted, classified as bad header checksum -/
+theorem header_burst_rejected (raw : List Octet) (f : Frame) (hacc : classify raw = .accept f)
+    (hhd : f.hdcrc = true) (E : List Octet) (hE : E.length = 12) (hE2 : E.take 2 = [0#8, 0#8]) (hb : Burst16 E) :
+    classify (xorL (raw.take 12) E ++ raw.drop 12) = .badHeaderChecksum :=
+  header_burst_classified raw f hacc hhd E hE hE2 hb
+
+open Ufw.Lemmas.CrcAlgebra (xorL Burst16) in
+/-- a burst inside the payload of an accepted frame with payload checksum (every frame with payload
+    on a serial link): never accepted, classified as bad payload checksum -/
+theorem payload_burst_rejected (raw : List Octet) (f : Frame) (hacc : classify raw = .accept f)
+    (hpl : f.plcrc = true) (e : List Octet) (hlen : e.length = f.payload.length) (hb : Burst16 e) :
+    ∃ f', classify (raw.take (hlenOf (Ufw.Spec.Regp.unbe (raw.take 2))) ++ xorL f.payload e) = .badPayloadChecksum f' :=
+  payload_burst_classified raw f hacc hpl e hlen hb
+
+/-- NOT every burst is caught: the header checksum sits between the words it protects and the
+    payload checksum word, so a burst that touches both the last octet of the block-size field and
+    the checksum behind it can turn a valid frame into another valid frame.  Witness (known finding
+    of C07): the 16-bit read request for 3 words at 0x100, sequence number 5, with ten consecutive
+    bits damaged, is the valid request for 131 words. -/
+theorem burst_across_size_and_checksum_accepted :
+    classify [0x03#8, 0x00#8, 0x00#8, 0x05#8, 0x00#8, 0x00#8, 0x01#8, 0x00#8, 0x00#8, 0x00#8, 0x00#8, 0x03#8, 0x84#8, 0x7a#8] =
+      .accept { type := .readRequest, ws16 := true, hdcrc := true, plcrc := false, code := 0, seq := 5, addr := 256,
+                size := 3, payload := [] } ∧
+    classify [0x03#8, 0x00#8, 0x00#8, 0x05#8, 0x00#8, 0x00#8, 0x01#8, 0x00#8, 0x00#8, 0x00#8, 0x00#8, 0x83#8, 0x24#8, 0x7b#8] =
+      .accept { type := .readRequest, ws16 := true, hdcrc := true, plcrc := false, code := 0, seq := 5, addr := 256,
+                size := 131, payload := [] } := by
+  constructor <;> decide +kernel
+
+/-! #### the hypotheses are satisfiable -/
+
+open Ufw.Lemmas.CrcAlgebra (xorL Burst16) in
+example : Burst16 ([0#8, 0#8] ++ [0x80#8, 0xff#8, 0x01#8] ++ List.replicate 7 0#8) :=
+  .three 2 7 _ _ _ (by decide) (by decide)
+
+example : verdictOf [0x03#8, 0x00#8, 0x00#8, 0x05#8, 0x00#8, 0x00#8, 0x01#8, 0x00#8, 0x00#8, 0x00#8, 0x00#8, 0x03#8, 0x84#8, 0x7a#8]
+    (parse_frame [0x03#8, 0x00#8, 0x00#8, 0x05#8, 0x00#8, 0x00#8, 0x01#8, 0x00#8, 0x00#8, 0x00#8, 0x00#8, 0x03#8, 0x84#8, 0x7a#8]) =
+    some (.accept { type := .readRequest, ws16 := true, hdcrc := true, plcrc := false, code := 0, seq := 5, addr := 256,
+                    size := 3, payload := [] }) := by
+  rw [verdict_eq_spec]; exact congrArg some burst_across_size_and_checksum_accepted.1
 
 end Ufw.Props.C07
